@@ -198,7 +198,7 @@ func bytesStoreInstances(terms []*Term) []*Term {
 			}
 			if t.Op == "store" {
 				_, e := t.Sort.ArrParts()
-				if !e.IsArr() {
+				if !e.IsArr() && rowLike(t) {
 					k := t.String()
 					if !seenS[k] {
 						seenS[k] = true
@@ -330,8 +330,24 @@ func shape(o *Obligation) {
 		}
 		break
 	}
-	if len(sks) == 0 {
+	// further instantiation points: ground index terms of element reads (tf[index-1], buf[n], ...)
+	srcs := append([]*Term{goal}, append(prem, o.Hyps...)...)
+	for _, d := range o.Defs {
+		srcs = append(srcs, d.T)
+	}
+	extra := elementIndexTerms(srcs, 14)
+	if len(sks) == 0 && len(extra) == 0 {
 		return
+	}
+	seenSk := map[string]bool{}
+	for _, sk := range sks {
+		seenSk[sk.String()] = true
+	}
+	for _, x := range extra {
+		if !seenSk[x.String()] {
+			seenSk[x.String()] = true
+			sks = append(sks, x)
+		}
 	}
 	o.Goal = goal
 	hyps := append([]*Term{}, o.Hyps...)
@@ -339,7 +355,7 @@ func shape(o *Obligation) {
 	var insts []*Term
 	for _, h := range o.Hyps {
 		insts = append(insts, instantiateAt(h, sks, 0)...)
-		if len(insts) > 200 {
+		if len(insts) > 400 {
 			break
 		}
 	}
@@ -383,7 +399,7 @@ func instantiateAt(h *Term, sks []*Term, depth int) []*Term {
 		var out []*Term
 		var rec func(i int, m map[string]*Term)
 		rec = func(i int, m map[string]*Term) {
-			if len(out) > 16 {
+			if len(out) > 64 {
 				return
 			}
 			if i == len(h.Bound) {
@@ -725,4 +741,69 @@ func lastSexpr(s string) string {
 
 func sortObls(obls []*Obligation) {
 	sort.SliceStable(obls, func(i, j int) bool { return obls[i].Name < obls[j].Name })
+}
+
+// elementIndexTerms collects ground terms t occurring as (select A (+ off t)) outside quantifiers: the indices at
+// which the code (or the goal) reads slice elements.
+func elementIndexTerms(ts []*Term, max int) []*Term {
+	var out []*Term
+	seen := map[string]bool{}
+	var walk func(t *Term)
+	walk = func(t *Term) {
+		if t == nil || len(out) >= max {
+			return
+		}
+		if t.Op == "forall" || t.Op == "exists" {
+			return
+		}
+		if t.Op == "select" && len(t.Args) == 2 {
+			idx := t.Args[1]
+			if (idx.Op == "+" || idx.Op == "bvadd") && len(idx.Args) == 2 {
+				c := idx.Args[1]
+				if c.Op != "int" && c.Op != "bvc" && !seen[c.String()] {
+					seen[c.String()] = true
+					out = append(out, c)
+				}
+				// the absolute index too (quantified facts about freshly built arrays speak of absolute indices)
+				if hasSkolem(idx) && !seen[idx.String()] {
+					seen[idx.String()] = true
+					out = append(out, idx)
+				}
+			}
+		}
+		for _, a := range t.Args {
+			walk(a)
+		}
+	}
+	for _, t := range ts {
+		walk(t)
+	}
+	return out
+}
+
+// rowLike: the array term can denote the element row of a memory (not a field, ghost or lock array).
+func rowLike(t *Term) bool {
+	for t.Op == "store" {
+		t = t.Args[0]
+	}
+	if t.Op == "var" {
+		for _, p := range []string{"F$", "G$", "L$", "E$", "V$", "P$"} {
+			if strings.HasPrefix(t.Name, p) {
+				return false
+			}
+		}
+	}
+	return true
+}
+
+func hasSkolem(t *Term) bool {
+	if t.Op == "var" && strings.HasPrefix(t.Name, "sk!") {
+		return true
+	}
+	for _, a := range t.Args {
+		if hasSkolem(a) {
+			return true
+		}
+	}
+	return false
 }
